@@ -164,6 +164,20 @@ Fixpoint well_locked_m (guards : field -> list lock) (h : held) (p : list event)
       && well_locked_m guards h r
   end.
 
+(** ... and with fields that no thread ever writes ([ro f = true]): reading
+    them needs no lock, writing them is not allowed at all. *)
+Fixpoint well_locked_ro (guards : field -> list lock) (ro : field -> bool)
+    (h : held) (p : list event) : bool :=
+  match p with
+  | [] => true
+  | Acq l m :: r => well_locked_ro guards ro ((l, m) :: h) r
+  | Rel l m :: r => mem_lm (l, m) h && well_locked_ro guards ro (remove_one (l, m) h) r
+  | Rd f :: r => (ro f || existsb (holds h) (guards f)) && well_locked_ro guards ro h r
+  | Wr f :: r =>
+      (negb (ro f) && match guards f with [] => false | gs => forallb (holds_w h) gs end)
+      && well_locked_ro guards ro h r
+  end.
+
 (** Nested acquisitions go to strictly higher ranks (so in particular no lock
     is re-acquired while held, in any mode), a thread only releases what it
     holds and ends holding nothing. *)
@@ -185,6 +199,11 @@ Definition well_locked_race_free_statement : Prop :=
 Definition well_locked_m_race_free_statement : Prop :=
   forall (guards : field -> list lock) (progs : list (list event)),
     Forall (fun p => well_locked_m guards [] p = true) progs ->
+    forall s, reachable (init progs) s -> ~ race s.
+
+Definition well_locked_ro_race_free_statement : Prop :=
+  forall (guards : field -> list lock) (ro : field -> bool) (progs : list (list event)),
+    Forall (fun p => well_locked_ro guards ro [] p = true) progs ->
     forall s, reachable (init progs) s -> ~ race s.
 
 Definition ranked_no_deadlock_statement : Prop :=
